@@ -14,14 +14,68 @@ use vmc::{fnv, hex, json, Json};
 
 const OPTIONS: [&str; 12] = ["a=true", "a=false", "n=0", "n=-1", "n=2147483647", "n=2147483648", "x=1.5", "k=v=w", "e=", "t=True", "page-ranges=1-2,5-6", "n=1,2"];
 
+/// typing witnesses used one at a time (and next to one other option): zero-padded and negative decimals, the
+/// 32-bit limits and their neighbours, texts that merely look numeric or boolean
+const TYPING: [&str; 24] = [
+    "n=007",
+    "n=000000000002",
+    "n=-00000000017",
+    "n=00000000002147483647",
+    "n=-2147483648",
+    "n=-2147483649",
+    "n=-000002147483648",
+    "n=99999999999999999999",
+    "n=-0",
+    "n=0x10",
+    "n=1e3",
+    "n=5 ",
+    "n=\u{661}\u{662}",
+    "n=1_000",
+    "n=-",
+    "n=--1",
+    "n=1-2",
+    "n=12a",
+    "b=TRUE",
+    "b=yes",
+    "b=true ",
+    "b=truefalse",
+    "b=1",
+    "b=0",
+];
+
+/// the typing rule of the statement, written without the standard library's integer parser: "true"/"false" ->
+/// boolean; an optional '-' followed by one or more ASCII digits whose value fits 32 bits -> integer; else keyword
 fn typed(text: &str) -> Val {
     match text {
         "true" => Val::Bool(true),
         "false" => Val::Bool(false),
-        t => match t.parse::<i32>() {
-            Ok(i) => Val::Int(i),
-            Err(_) => Val::Str(r1::T_KEYWORD, t.as_bytes().to_vec()),
-        },
+        t => {
+            let (neg, digits) = match t.strip_prefix('-') {
+                Some(d) => (true, d),
+                None => (false, t),
+            };
+            if !digits.is_empty() && digits.bytes().all(|b| b.is_ascii_digit()) {
+                let mut v: i128 = 0;
+                for b in digits.bytes() {
+                    v = (v * 10 + (b - b'0') as i128).min(1 << 40);
+                }
+                if neg {
+                    v = -v;
+                }
+                if v >= i32::MIN as i128 && v <= i32::MAX as i128 {
+                    return Val::Int(v as i32);
+                }
+            }
+            Val::Str(r1::T_KEYWORD, t.as_bytes().to_vec())
+        }
+    }
+}
+
+fn option_text(i: usize) -> &'static str {
+    if i < OPTIONS.len() {
+        OPTIONS[i]
+    } else {
+        TYPING[i - OPTIONS.len()]
     }
 }
 
@@ -181,7 +235,7 @@ fn contents(tier: Tier) -> Vec<Vec<u8>> {
 impl Case {
     fn to_json(&self) -> Json {
         json!({"input": if self.stdin { "stdin" } else { "file" }, "content": self.content, "job_name": self.job_name, "user": self.user,
-               "options": self.options.iter().map(|i| OPTIONS[*i]).collect::<Vec<_>>(), "no_check_state": self.no_check, "header": self.header,
+               "options": self.options.iter().map(|i| option_text(*i)).collect::<Vec<_>>(), "no_check_state": self.no_check, "header": self.header,
                "state_answer": format!("{:?}", self.state), "print_answer": format!("{:?}", self.print)})
     }
 }
@@ -239,7 +293,7 @@ fn run_util(c: &Case, bin: &std::path::Path, scratch: &std::path::Path, contents
         cmd.arg("-u").arg(u);
     }
     for o in &c.options {
-        cmd.arg("-o").arg(OPTIONS[*o]);
+        cmd.arg("-o").arg(option_text(*o));
     }
     cmd.arg(&uri);
     cmd.env_remove("http_proxy").env_remove("https_proxy").env_remove("HTTP_PROXY").env_remove("HTTPS_PROXY").env_remove("ALL_PROXY").env_remove("all_proxy");
@@ -348,7 +402,7 @@ fn judge(c: &Case, o: &Observed, port: u16, contents: &[Vec<u8>]) -> Result<(), 
     if !c.options.is_empty() {
         let mut job = std::collections::BTreeMap::new();
         for o in &c.options {
-            let (k, v) = OPTIONS[*o].split_once('=').unwrap();
+            let (k, v) = option_text(*o).split_once('=').unwrap();
             job.insert(k.as_bytes().to_vec(), vec![typed(v)]);
         }
         groups.push((r1::TAG_JOB, job));
@@ -417,6 +471,11 @@ pub fn run(ctx: &Ctx) -> ! {
         }
         lists.extend(next.iter().cloned());
         layer = next;
+    }
+    for t in 0..TYPING.len() {
+        lists.push(vec![OPTIONS.len() + t]);
+        lists.push(vec![0, OPTIONS.len() + t]);
+        lists.push(vec![OPTIONS.len() + t, 2]);
     }
     for l in &lists {
         for j in [None, Some("job"), Some("jöb name")] {
